@@ -132,22 +132,24 @@ theorem intLitOf_value (v : Int) : (intLitOf v).value = v := by
 
 /-! ## strings -/
 
-theorem findByte_append {q : UInt8} {body tail : Bytes} (h : ∀ c ∈ body, c ≠ q) :
-    findByte q (body ++ q :: tail) = some body.length := by
-  induction body with
-  | nil => simp [findByte]
-  | cons c r ih =>
-    have hc := h c (by simp)
-    have := ih (fun d hd => h d (by simp [hd]))
-    simp [findByte, hc, this]
-
 theorem parseStrVal_quoted {q : UInt8} {body tail : Bytes} (hq : isQuote q = true) (h : ∀ c ∈ body, c ≠ q) :
-    parseStrVal false (q :: (body ++ q :: tail)) = some (body, tail) := by
-  simp [parseStrVal, hq, skipToMatchingQuote, findByte_append h]
+    parseStrVal false (q :: (body ++ q :: tail)) = (body, tail) := by
+  have hp : ∀ c ∈ body, (fun c => c != q) c = true := by intro c hc; simp [h c hc]
+  have hst : StopsAt (fun c => c != q) (q :: tail) := by simp [StopsAt]
+  simp [parseStrVal, hq, skipToMatchingQuote, takeWhile_append_stop hp hst, dropWhile_append_stop hp hst]
+
+/-- an unterminated quote: the value is the rest of the string -/
+theorem parseStrVal_unterminated {q : UInt8} {body : Bytes} (hq : isQuote q = true) (h : ∀ c ∈ body, c ≠ q) :
+    parseStrVal false (q :: body) = (body, []) := by
+  have hp : ∀ c ∈ body, (fun c => c != q) c = true := by intro c hc; simp [h c hc]
+  have e1 := takeWhile_append_stop (b := []) hp trivial
+  have e2 := dropWhile_append_stop (b := []) hp trivial
+  simp only [List.append_nil] at e1 e2
+  simp [parseStrVal, hq, skipToMatchingQuote, e1, e2]
 
 theorem parseStrVal_bare {body tail : Bytes} (hne : body ≠ []) (hb : ∀ c ∈ body, isSpace c = false)
     (hq : ∀ c r, body = c :: r → isQuote c = false) (ht : EndsToken tail) :
-    parseStrVal false (body ++ tail) = some (body, tail) := by
+    parseStrVal false (body ++ tail) = (body, tail) := by
   cases body with
   | nil => exact absurd rfl hne
   | cons c r =>
@@ -161,7 +163,7 @@ theorem parseStrVal_bare {body tail : Bytes} (hne : body ≠ []) (hb : ∀ c ∈
 
 theorem parseStrVal_raw {body tail : Bytes} (hb : ∀ c ∈ body, c.toNat ≠ 10)
     (ht : StopsAt (fun c => c.toNat != 10) tail) :
-    parseStrVal true (body ++ tail) = some (body, tail) := by
+    parseStrVal true (body ++ tail) = (body, tail) := by
   have hb' : ∀ d ∈ body, (fun c : UInt8 => c.toNat != 10) d = true := by intro d hd; simp [hb d hd]
   simp [parseStrVal, skipToEnd, takeWhile_append_stop hb' ht, dropWhile_append_stop hb' ht]
 
